@@ -815,6 +815,20 @@ package url
 //@   loop 1 step (prev(state) == StatePath && (prev(input.pointer) + 1 >= input.length || r == 0x2F || (special(url, url.scheme) && r == 0x5C) || (!stateOverridden && (r == 0x3F || r == 0x23))) && !isDD(prev(bufv(buffer))) && !isSD(prev(bufv(buffer))) && (url.scheme == "file" && prev(len(url.path.p)) == 0 && isWDL(prev(bufv(buffer)))) && !p.opts.skipWindowsDriveLetterNormalization) ==> (len(url.path.p) == 1 && url.path.p[0] == prev(bufv(buffer))[0:1] + ":" + prev(bufv(buffer))[2:len(prev(bufv(buffer)))])   [C01,C05 path-state-drive-letter]
 //@   loop 1 step (prev(state) == StatePath && (prev(input.pointer) + 1 >= input.length || r == 0x2F || (special(url, url.scheme) && r == 0x5C) || (!stateOverridden && (r == 0x3F || r == 0x23))) && isDD(prev(bufv(buffer)))) ==> (len(url.path.p) == ((url.scheme == "file" && prev(len(url.path.p)) == 1 && isNWDL(prev(url.path.p[0]))) ? prev(len(url.path.p)) : max(prev(len(url.path.p)) - 1, 0)) + ((r == 0x2F || (special(url, url.scheme) && r == 0x5C)) ? 0 : 1) && (!(r == 0x2F || (special(url, url.scheme) && r == 0x5C)) ==> url.path.p[len(url.path.p) - 1] == "") && (forall k int :: (0 <= k && k < ((url.scheme == "file" && prev(len(url.path.p)) == 1 && isNWDL(prev(url.path.p[0]))) ? prev(len(url.path.p)) : max(prev(len(url.path.p)) - 1, 0))) ==> url.path.p[k] == prev(url.path.p[k])) && bufv(buffer) == "")   [C01,C05 path-state-double-dot]
 //@   loop 1 step (prev(state) == StatePath && (prev(input.pointer) + 1 >= input.length || r == 0x2F || (special(url, url.scheme) && r == 0x5C) || (!stateOverridden && (r == 0x3F || r == 0x23))) && !isDD(prev(bufv(buffer))) && isSD(prev(bufv(buffer)))) ==> (len(url.path.p) == prev(len(url.path.p)) + ((r == 0x2F || (special(url, url.scheme) && r == 0x5C)) ? 0 : 1) && (!(r == 0x2F || (special(url, url.scheme) && r == 0x5C)) ==> url.path.p[len(url.path.p) - 1] == "") && (forall k int :: (0 <= k && k < prev(len(url.path.p))) ==> url.path.p[k] == prev(url.path.p[k])) && bufv(buffer) == "")   [C01,C05 path-state-single-dot]
+//@   loop 1 step (prev(state) == StateNoScheme && baseUrl.path.opaque) ==> (url.scheme == base.scheme && url.path == base.path && url.query == base.query && url.fragment != nil && *url.fragment == "")   [C01,C06 base-parts-copied]
+//@   loop 1 step prev(state) == StateRelative ==> url.scheme == base.scheme   [C01,C06 base-parts-copied]
+//@   loop 1 step (prev(state) == StateRelative && !(r == 0x2F || (special(url, url.scheme) && r == 0x5C))) ==> (url.username == base.username && url.password == base.password && url.host == base.host && url.port == base.port && url.decodedPort == base.decodedPort && url.path == base.path)   [C01,C06 base-parts-copied]
+//@   loop 1 step (prev(state) == StateRelative && (r == 0x2F || (special(url, url.scheme) && r == 0x5C))) ==> (url.username == prev(url.username) && url.password == prev(url.password) && url.host == prev(url.host) && url.port == prev(url.port) && url.path == prev(url.path) && url.query == prev(url.query))   [C01,C06 base-parts-copied]
+//@   loop 1 step (prev(state) == StateRelative && r == 0x3F) ==> (url.query != nil && *url.query == "" && url.fragment == prev(url.fragment))   [C01,C06 base-parts-copied]
+//@   loop 1 step (prev(state) == StateRelative && r == 0x23) ==> (url.query == base.query && url.fragment != nil && *url.fragment == "")   [C01,C06 base-parts-copied]
+//@   loop 1 step (prev(state) == StateRelative && !(r == 0x2F || (special(url, url.scheme) && r == 0x5C)) && r != 0x3F && r != 0x23) ==> (url.query == nil && len(url.path.p) == max(prev(len(base.path.p)) - 1, 0) && (forall k int :: (0 <= k && k < len(url.path.p)) ==> url.path.p[k] == prev(base.path.p[k])))   [C01,C06 base-path-shortened]
+//@   loop 1 step (prev(state) == StateRelativeSlash && !(special(url, url.scheme) && (r == 0x2F || r == 0x5C)) && r != 0x2F) ==> (url.username == base.username && url.password == base.password && url.host == base.host && url.port == base.port && url.decodedPort == base.decodedPort && url.path == prev(url.path) && url.query == prev(url.query))   [C01,C06 base-parts-copied]
+//@   loop 1 step (prev(state) == StateRelativeSlash && ((special(url, url.scheme) && (r == 0x2F || r == 0x5C)) || r == 0x2F)) ==> (url.username == prev(url.username) && url.host == prev(url.host) && url.port == prev(url.port) && url.path == prev(url.path))   [C01,C06 base-parts-copied]
+//@   loop 1 step prev(state) == StateFile ==> url.scheme == "file"   [C01,C06 base-parts-copied]
+//@   loop 1 step (prev(state) == StateFile && (r == 0x2F || r == 0x5C || !(base != nil && base.scheme == "file"))) ==> (url.host != nil && *url.host == "" && url.path == prev(url.path) && url.query == prev(url.query))   [C01,C06 base-parts-copied]
+//@   loop 1 step (prev(state) == StateFile && r != 0x2F && r != 0x5C && base != nil && base.scheme == "file") ==> (url.host == base.host && url.path == base.path && (r == 0x3F ==> (url.query != nil && *url.query == "")) && (r == 0x23 ==> (url.query == base.query && url.fragment != nil && *url.fragment == "")) && ((r != 0x3F && r != 0x23) ==> url.query == nil))   [C01,C06 base-parts-copied]
+//@   loop 1 step (prev(state) == StateFileSlash && r != 0x2F && r != 0x5C && base != nil && base.scheme == "file") ==> (url.host == base.host && url.path == prev(url.path))   [C01,C06 base-parts-copied]
+//@   loop 1 step (prev(state) == StateFileSlash && (r == 0x2F || r == 0x5C || !(base != nil && base.scheme == "file"))) ==> (url.host == prev(url.host) && url.path == prev(url.path) && len(url.path.p) == prev(len(url.path.p)))   [C01,C06 base-parts-copied]
 //@   loop 1 decreases specRank(state), input.length - input.pointer
 //@   loop 2 modifies url.username, url.password, bb.pointer, bb.eof
 //@   loop 2 invariant cur(bb) && fresh(bb) && bb != input && url != nil
